@@ -7,7 +7,8 @@ TAGS = {'RawText': 0, 'Strong': 1, 'Emphasis': 2, 'Strikethrough': 3, 'InlineCod
         'Link': 6, 'AutoLink': 7, 'EscapeSequence': 8, 'LineBreak': 9, 'HtmlSpan': 10, 'Math': 11,
         'Heading': 12, 'SetextHeading': 13, 'Quote': 14, 'Paragraph': 15, 'BlockCode': 16,
         'CodeFence': 17, 'List': 18, 'ListItem': 19, 'Table': 20, 'TableRow': 21, 'TableCell': 22,
-        'ThematicBreak': 23, 'HtmlBlock': 24, 'Document': 25}
+        'ThematicBreak': 23, 'HtmlBlock': 24, 'Document': 25,
+        'BlankLine': 26, 'LinkReferenceDefinition': 27, 'LinkReferenceDefinitionBlock': 28}
 NAMES = {v: k for k, v in TAGS.items()}
 
 KNOWN_ATTRS = {
@@ -29,6 +30,8 @@ KNOWN_ATTRS = {
     'TableRow': {'row_align', 'line_number'}, 'TableCell': {'align', 'line_number'},
     'ThematicBreak': {'line', 'line_number'}, 'HtmlBlock': {'line_number'},
     'Document': {'footnotes', 'line_number'},
+    'BlankLine': {'line_number'}, 'LinkReferenceDefinitionBlock': {'line_number'},
+    'LinkReferenceDefinition': {'label', 'dest', 'title', 'dest_type', 'title_delimiter'},
 }
 
 
@@ -63,8 +66,14 @@ def dump(t):
         return [0, t.content]
     if name in ('Strong', 'Emphasis'):
         return [tag, t.delimiter, kids()]
-    if name in ('Strikethrough', 'EscapeSequence', 'Quote', 'Paragraph', 'Document'):
+    if name in ('Strikethrough', 'EscapeSequence', 'Quote', 'Paragraph', 'Document', 'LinkReferenceDefinitionBlock'):
         return [tag, kids()]
+    if name == 'BlankLine':
+        if ch != []:
+            raise DumpError('BlankLine with children')
+        return [tag]
+    if name == 'LinkReferenceDefinition':
+        return [tag, t.label, t.dest, t.title, t.dest_type or '', t.title_delimiter or '']
     if name == 'InlineCode':
         return [tag, t.delimiter, t.padding, only_raw()]
     if name in ('Image', 'Link'):
@@ -104,10 +113,10 @@ def dump(t):
 
 
 def classes():
-    from mistletoe import block_token, span_token, latex_token
+    from mistletoe import block_token, span_token, latex_token, markdown_renderer
     m = {}
     for name in TAGS:
-        for mod in (block_token, span_token, latex_token):
+        for mod in (block_token, span_token, latex_token, markdown_renderer):
             if hasattr(mod, name):
                 m[name] = getattr(mod, name)
                 break
@@ -139,8 +148,12 @@ def load(w):
     elif name in ('Strong', 'Emphasis'):
         t.delimiter = w[1]
         t.children = [load(c) for c in w[2]]
-    elif name in ('Strikethrough', 'EscapeSequence', 'Quote', 'Paragraph'):
+    elif name in ('Strikethrough', 'EscapeSequence', 'Quote', 'Paragraph', 'LinkReferenceDefinitionBlock'):
         t.children = [load(c) for c in w[1]]
+    elif name == 'BlankLine':
+        t.children = []
+    elif name == 'LinkReferenceDefinition':
+        t.label, t.dest, t.title, t.dest_type, t.title_delimiter = w[1], w[2], w[3], (w[4] or None), (w[5] or None)
     elif name == 'Document':
         t.footnotes = {}
         t.line_number = 1
